@@ -587,6 +587,8 @@ fn export<'tcx>(tcx: TyCtxt<'tcx>) {
     let mut n_adt = 0usize;
     let mut n_impl = 0usize;
     let mut n_fn = 0usize;
+    let mut n_stolen = 0usize;
+    let mut n_promoted_stage = 0usize;
     // clone every mir_built body first: later queries (const eval, resolve) may steal them
     let mut bodies: Vec<(LocalDefId, Body<'tcx>)> = Vec::new();
     for owner in tcx.hir_body_owners() {
@@ -599,7 +601,22 @@ fn export<'tcx>(tcx: TyCtxt<'tcx>) {
         }
         let steal = tcx.mir_built(owner);
         if steal.is_stolen() {
-            eprintln!("dfscan: body already stolen: {}", dps(tcx, owner.to_def_id()));
+            // borrowck of this body already ran (e.g. to infer an opaque type needed elsewhere): take the
+            // next stage, which is the same body after const promotion (still before drop elaboration
+            // and before the coroutine transform)
+            let (prom, _) = tcx.mir_promoted(owner);
+            if prom.is_stolen() {
+                // const items that were already const-evaluated: their values reach the users through
+                // try_eval_scalar_int; a missing *function* body would be a hole and fails the scan
+                if matches!(dk, DefKind::Const { .. } | DefKind::AssocConst { .. } | DefKind::Static { .. }) {
+                    continue;
+                }
+                eprintln!("dfscan: body already stolen: {}", dps(tcx, owner.to_def_id()));
+                n_stolen += 1;
+                continue;
+            }
+            n_promoted_stage += 1;
+            bodies.push((owner, prom.borrow().clone()));
             continue;
         }
         bodies.push((owner, steal.borrow().clone()));
@@ -839,11 +856,13 @@ fn export<'tcx>(tcx: TyCtxt<'tcx>) {
     }
     let _ = writeln!(
         out,
-        "{{\"rec\":\"end\",\"name\":{},\"adts\":{},\"impls\":{},\"fns\":{}}}",
+        "{{\"rec\":\"end\",\"name\":{},\"adts\":{},\"impls\":{},\"fns\":{},\"promoted_stage\":{},\"stolen\":{}}}",
         q(&krate),
         n_adt,
         n_impl,
-        n_fn
+        n_fn,
+        n_promoted_stage,
+        n_stolen
     );
     let kind = if tcx.sess.is_test_crate() { "test" } else { "lib" };
     let path = format!("{}/{}-{}-{}.jsonl", out_dir, krate, kind, std::process::id());
